@@ -376,6 +376,32 @@ fn run(ctx: &mut Ctx) {
     if ctx.shard == 4 % ctx.nshards {
         path_lookup_slice(ctx);
     }
+    // slice 2f: -execdir on the root directory, however it is spelled, runs in the root directory
+    if ctx.shard == 5 % ctx.nshards {
+        let log = ctx.sbx.join(".mc-vrec.log");
+        let vrec = crate::engine::self_bin_dir().join("vrec").to_string_lossy().to_string();
+        for spelling in ["/", "//", "/.", "/./", "///"] {
+            for term in [";", "+"] {
+                let _ = std::fs::remove_file(&log);
+                let _ = std::env::set_current_dir(&ctx.sbx);
+                let logs = log.to_string_lossy().to_string();
+                let args = [spelling, "-maxdepth", "0", "-execdir", vrec.as_str(), logs.as_str(), "{}", term];
+                let got = crate::findrun::run_find(&args);
+                let recs = crate::vreclog::read(&log).unwrap_or_default();
+                ctx.rep.evaluations += 1;
+                ctx.rep.nontrivial += 1;
+                ctx.rep.count("root_directory_spellings", 1);
+                if recs.len() != 1 || recs[0].cwd != b"/" || got.code != Ok(0) {
+                    ctx.rep.violation(
+                        "C09 -execdir on the root directory does not run in the root directory",
+                        format!("find {:?}: {} invocation(s), cwd {:?}, args {:?}; {}", args, recs.len(), recs.first().map(|r| lossy(&r.cwd)), recs.first().map(|r| r.args.iter().map(|a| lossy(a)).collect::<Vec<_>>()), got.brief()),
+                        json!({"prop":"C09","root_spelling":spelling}),
+                    );
+                }
+            }
+        }
+        let _ = std::fs::remove_file(&log);
+    }
     // slice 3: names that are not valid UTF-8 (argv bytes only: the labelled output is not used)
     nonutf8_slice(ctx, &mut job);
 }
